@@ -33,13 +33,21 @@ def run_boot(wk, scenario, workers=2):
         cmd = list(s.cmd)
         cmd[-1] = appname
         t0 = time.time()
-        p = subprocess.Popen(cmd, cwd=rp.REPO, env=env, stdout=subprocess.DEVNULL, stderr=subprocess.DEVNULL)
-        try:
-            status = p.wait(WINDOW)
-        except subprocess.TimeoutExpired:
-            status = -1
+        # (an exception escaping the master's main loop is printed on stderr, not in the error log)
+        errp = os.path.join(s.dir, "stderr.txt")
+        with open(errp, "w") as ferr:
+            p = subprocess.Popen(cmd, cwd=rp.REPO, env=env, stdout=subprocess.DEVNULL, stderr=ferr)
+            try:
+                status = p.wait(WINDOW)
+            except subprocess.TimeoutExpired:
+                status = -1
         elapsed = int((time.time() - t0) * 1000)
         log = s.errlog()
+        try:
+            with open(errp) as f:
+                log += "\n--- stderr ---\n" + f.read()
+        except OSError:
+            pass
         forks = log.count("Booting worker with pid")
         if status == -1:
             for c in rp.children_of(p.pid):
